@@ -53,6 +53,24 @@ Definition zip_n2 : node := NRun [NPrim REVERSE 8; NMod REDUCE [(NCall 71 S21 0 
 Theorem zip_cache_names_refuted_pre : exists x y, zip_key_pre_names x = zip_key_pre_names y /\ zip_deps_named x <> zip_deps_named y.
 Proof. exists zip_n1, zip_n2. split; [reflexivity|]. intro H. vm_compute in H. discriminate H. Qed.
 
+(** before 868269f the inverse that took [asm.spans.len() - 1] was stored like any other.
+      F ← ⊙5 / °F 1 6        then        F ← ⊙5 / X ← 1 / Y ← 2 / °F 1 6
+    [°F] inverts F's body [⊙5] (same span indices in both); the table has 6 spans at that
+    moment in the first program and 10 in the second; the cached [MatchPattern] carried
+    span 5: the second program's error was reported at 2:1 instead of 4:2 (other order: the
+    index is out of range, "The compiler has crashed") *)
+Definition len_w1 : inv_input_l := (([NMod DIP [(NPush 5, S01c)] 2], (0, false)), 6).
+Definition len_w2 : inv_input_l := (([NMod DIP [(NPush 5, S01c)] 2], (0, false)), 10).
+Theorem inv_cache_spans_len_refuted_pre : exists x y, inv_key_l x = inv_key_l y /\ inv_deps_l x <> inv_deps_l y.
+Proof. exists len_w1, len_w2. split; [reflexivity|]. intro H. vm_compute in H. discriminate H. Qed.
+
+(** ... as a history: storing unconditionally, with a function that reads the length *)
+Theorem inv_cache_spans_len_visible_pre :
+  let f := inv_f_l (fun _ => true) (fun d l => (d, l)) in
+  run_memo_store (fun a b : list node * (N * bool) => true) always (fun _ => true) inv_key_l f [len_w1; len_w2]
+  <> map f [len_w1; len_w2].
+Proof. intro f. intro H. vm_compute in H. discriminate H. Qed.
+
 (** the repaired keys tell every one of these pairs apart *)
 Theorem repaired_keys_separate :
   inv_key un_w1 <> inv_key un_w2 /\ inv_key un_w3 <> inv_key un_w4 /\
